@@ -54,7 +54,7 @@ func TestVerifC04Playback(t *testing.T) {
 			vmon.AdminRoute{Method: "GET", URL: base + "/get?path=" + p + "&start=2024-01-01T00:00:00Z&duration=10", Action: "playback", Path: p},
 			vmon.AdminRoute{Method: "GET", URL: base + "/list?path=" + p + "&start=2024-01-01T00:00:00Z", Action: "playback", Path: p})
 	}
-	vmon.AdminAuthMonitor(r, vmon.AdminCfg{TrustedProxy: trusted, Name: "playback", Routes: routes, Batches: r.N(4, 400),
+	vmon.AdminAuthMonitor(r, vmon.AdminCfg{TrustedProxy: trusted, Name: "playback", Routes: routes, Batches: r.N(4, 60),
 		SetUsers: func(uj string) error {
 			var users []conf.AuthInternalUser
 			if err2 := json.Unmarshal([]byte(uj), &users); err2 != nil {
